@@ -11,6 +11,7 @@ import (
 	"bytes"
 	"encoding/json"
 	"fmt"
+	"os"
 	"runtime"
 	"runtime/debug"
 	"sort"
@@ -64,6 +65,7 @@ type Sched struct {
 	Points     []PointRec
 	Trace      []string
 	last       int // id of the goroutine released last
+	streak     int // consecutive decisions at which that goroutine was released again
 	Deadlock   string
 	HorizonHit bool
 	maxSteps   int
@@ -86,6 +88,9 @@ type Sched struct {
 	// timer, network) and none on a lock: not a deadlock, the environment has to move.
 	Quiescent bool
 }
+
+// fairStreak: see the fairness rule in Run.
+const fairStreak = 200
 
 var (
 	schedMu     sync.Mutex
@@ -261,6 +266,24 @@ func Point(site, kind string) {
 func Go(site string, f func()) {
 	s, parent := curManaged()
 	if s == nil {
+		// started from a goroutine the scheduler does not manage (the harness's root goroutine calling into the code
+		// under test, a timer or AfterFunc callback): while a scheduler is driving the execution the child is managed
+		// all the same - an unmanaged goroutine that loops without blocking would stall the whole bubble
+		schedMu.Lock()
+		as := activeSched
+		schedMu.Unlock()
+		if as != nil {
+			as.mu.Lock()
+			live := !as.detached && !as.abandoned
+			key := "root/" + site
+			as.children[key]++
+			name := fmt.Sprintf("%s#%d", key, as.children[key])
+			as.mu.Unlock()
+			if live {
+				as.Spawn(name, f)
+				return
+			}
+		}
 		go f()
 		return
 	}
@@ -375,6 +398,15 @@ func (s *Sched) Run() {
 				break
 			}
 		}
+		// fairness: a goroutine that has been released fairStreak times in a row while others are waiting at a point
+		// (a retry loop that never blocks) goes to the back of the canonical order, and taking another one is then not a
+		// departure from the default schedule - waiting by spinning stays visible without ending in the horizon
+		if stillEnabled && len(enabled) > 1 && s.streak >= fairStreak {
+			first := enabled[0]
+			copy(enabled, enabled[1:])
+			enabled[len(enabled)-1] = first
+			stillEnabled = false
+		}
 		if s.NoBranch {
 			enabled = enabled[:1]
 			stillEnabled = false
@@ -408,6 +440,11 @@ func (s *Sched) Run() {
 		s.Points = append(s.Points, PointRec{Enabled: enabled, EnabledNames: names, Chosen: choice, Site: g.site + ":" + g.kind, Name: g.name, RunningStillEnabled: stillEnabled && len(s.Points) > 0})
 		s.Trace = append(s.Trace, fmt.Sprintf("%s %s(%s)", g.name, g.kind, g.site))
 		g.state = gRunning
+		if s.last == g.id {
+			s.streak++
+		} else {
+			s.streak = 1
+		}
 		s.last = g.id
 		s.mu.Unlock()
 		g.resume <- struct{}{}
@@ -671,6 +708,11 @@ func exploreFrom(t *testing.T, prefix []int, bound int, maxSteps int, deadline t
 			st.Exhaustive = false
 			return
 		}
+		if dir := os.Getenv("VERIF_DEBUG_SCHED"); dir != "" {
+			// debugging aid: the prefix about to be executed, so that a hanging execution can be identified
+			b, _ := json.Marshal(prefix)
+			_ = os.WriteFile(fmt.Sprintf("%s/sched-%d.json", dir, os.Getpid()), b, 0o644)
+		}
 		ex := runValidated(t, prefix, expect, maxSteps, body)
 		st.Executions++
 		st.Decisions += int64(len(ex.Points))
@@ -771,7 +813,14 @@ func ExploreSharded(t *testing.T, pool *Pool, scenario string, bound, maxSteps i
 		choices[i] = p.Chosen
 	}
 	if ex.Signature != "" {
-		viol = append(viol, ShardViolation{ex.Signature, ex.Violation, choices, ex.Trace})
+		// like every other violating schedule, the default schedule's verdict counts only if it reproduces
+		again := runValidated(t, choices, expectFor(ex, len(ex.Points)), maxSteps, body)
+		if again.Signature == ex.Signature {
+			viol = append(viol, ShardViolation{ex.Signature, ex.Violation, choices, ex.Trace})
+		} else {
+			total.Exhaustive = false
+			total.HarnessErrors = append(total.HarnessErrors, "a violating schedule did not reproduce (not reported): "+ex.Signature+" on the default schedule")
+		}
 	}
 	var jobs []string
 	budget := int(time.Until(deadline).Seconds())
